@@ -26,6 +26,7 @@ from hypothesis import strategies as st
 from vlib.core import Stage, HarnessError
 from vlib import osc_ref
 from vlib import resp_match as rm
+from vlib import resp_dgram as rd
 
 PROPERTY = 'C18'
 LEVEL = 'exploration'
@@ -90,7 +91,8 @@ ASSUMPTIONS = [
     'Datagram well-formedness = vlib.osc_ref strict decode (type tag string '
     'may be missing, as OSC 1.0 allows for old senders). For nesting deeper '
     'than 16 only safety (no escape, termination, next datagram) is checked.',
-    'Termination is decided by a line-event budget (5000 + 600 per byte) on '
+    'Termination is decided by a line-event budget (2000 + 100 per byte; '
+    'terminating parses were measured at <= 40 per byte + 17) on '
     'sc3.base._osclib/_oscinterface in the receiving thread, never by wall '
     'clock. A sentinel that does not run within 60 s is a harness error.',
     'time argument: reception time for messages and "immediately" bundles '
@@ -884,6 +886,31 @@ def history_strategy():
                         st.sampled_from([0.0, 0.5, 64.0]))
             return ['msg', spec]
 
+        created = []
+
+        def args_for(t):
+            """Arguments built from a template: accepted by construction,
+            or one position wrong, or cut short / extended."""
+            good = {'is_int': 1, 'is_num': 0.5, 'is_str': 'a', 'positive': 2,
+                    'always': '', 'never': 0}
+            out = []
+            for item in t:
+                if item is None:
+                    out.append(draw(st.sampled_from(VALS)))
+                elif isinstance(item, dict):
+                    out.append(good[item['pred']])
+                else:
+                    out.append(item)
+            how = draw(st.integers(0, 5))
+            if how == 0 and out:
+                out = out[:draw(st.integers(0, len(out) - 1))]
+            elif how == 1 and out:
+                k = draw(st.integers(0, len(out) - 1))
+                out[k] = 'zz'
+            elif how == 2:
+                out.append(draw(st.sampled_from(VALS)))
+            return out
+
         def new(kind=None, path=None, **kw):
             kind = kind or draw(st.sampled_from(['exact', 'matching']))
             if path is None:
@@ -893,6 +920,7 @@ def history_strategy():
             spec = {'kind': kind, 'path': path, 'src': draw(src),
                     'recv': draw(recv), 'tmpl': draw(tmpl)}
             spec.update(kw)
+            created.append(spec)
             return ['new', spec]
 
         # a scenario prefix makes the interesting interleavings frequent by
@@ -913,8 +941,8 @@ def history_strategy():
         elif sc == 2:     # template longer than the message, with a neighbour
             t = draw(st.lists(titem, min_size=1, max_size=3))
             ops = [new(kind, p0, src=None, recv=None, tmpl=t),
-                   new(kind, p0, **plain), message(p0, []),
-                   message(p0, draw(args))]
+                   new(kind, p0, **plain), message(p0, args_for(t)),
+                   message(p0, []), message(p0, args_for(t))]
         elif sc == 3:     # exact and matching responders on one path
             ops = [new('exact', p0, **plain), new('matching', p0, **plain),
                    new('exact', p0, **plain), message(p0),
@@ -932,7 +960,12 @@ def history_strategy():
                 ops.append(new())
                 nres += 1
             elif r < 58:
-                ops.append(message())
+                witht = [c for c in created if c['tmpl']]
+                if witht and draw(st.integers(0, 2)) == 0:
+                    c = draw(st.sampled_from(witht))
+                    ops.append(message(c['path'], args_for(c['tmpl'])))
+                else:
+                    ops.append(message())
             elif r < 65:
                 ops.append(['enable', draw(st.integers(0, 7))])
             elif r < 73:
@@ -1593,6 +1626,38 @@ def negative_size_reachable(data, depth=0):
 
 SUPPORTED_TAGS = set('ifsb[]TF')
 
+# Deviations (vlib.resp_dgram) that sc3's reader is known to tolerate, by the
+# code site that tolerates them: finding key -> deviation names.  A wrongly
+# dispatched datagram counts as known only if *every* deviation it has
+# belongs to a group whose finding is still open.
+DEV_GROUPS = {
+    'bundle_element_size_unchecked': [
+        'negative_element_size', 'empty_element', 'misaligned_element_size',
+        'element_overruns'],
+    'unidentified_bundle_element_skipped': ['unidentified_content'],
+    'nonconforming_message_accepted': [
+        'size_not_multiple_of_4', 'nonzero_padding', 'trailing_bytes',
+        'tags_without_comma', 'unknown_type_tag', 'truncated_blob_padding',
+        # h and c are type tags sc3's reader does not know (skipped like
+        # any unknown tag); their missing data shows up under these names
+        'truncated_int64', 'truncated_char'],
+    'short_float_padded': ['truncated_float32'],
+    'negative_blob_size_accepted': ['negative_blob_size'],
+}
+DEV2GROUP = {d: g for g, ds in DEV_GROUPS.items() for d in ds}
+DEV_PRIORITY = [d for ds in DEV_GROUPS.values() for d in ds]
+
+
+def _top_deviation(devs):
+    """The deviation that names the violation: one nobody tolerates on
+    purpose first (alphabetical), then by group order."""
+    if not devs:
+        return 'other'
+    loose = sorted(d for d in devs if d not in DEV2GROUP)
+    if loose:
+        return loose[0]
+    return min(devs, key=DEV_PRIORITY.index)
+
 
 def run_datagram(case, v):
     main = G['main']
@@ -1602,15 +1667,18 @@ def run_datagram(case, v):
     labels = {'base:' + case['base'][0]}
     for mop in case['muts']:
         labels.add('mut:' + mop[0])
+    # the reference decoder recurses per nesting level; give it room (this
+    # does not apply to the sc3 call below)
+    limit = sys.getrecursionlimit()
+    sys.setrecursionlimit(max(limit, 8000))
     try:
         ref = osc_ref.decode_packet(data, allow_missing_tags=True)
         reason = None
     except osc_ref.OscDecodeError as e:
         ref = None
         reason = _slug(e)
-    except RecursionError:
-        ref = None
-        reason = 'too_deep_for_reference'
+    finally:
+        sys.setrecursionlimit(limit)
     if depth > 16 and ref is not None:
         reason = 'deep'
     labels.add('wellformed' if ref is not None else 'malformed:' + reason)
@@ -1626,7 +1694,7 @@ def run_datagram(case, v):
     e0 = len(cap.records)
     sender = ('127.0.0.1', 9000)
     try:
-        budget = StepBudget(5000 + 600 * len(data))
+        budget = StepBudget(2000 + 100 * len(data))
         escaped = None
         with budget:
             try:
@@ -1653,9 +1721,11 @@ def run_datagram(case, v):
         got = [m for m, _, _, _ in spy]
         if ref is None:
             if got:
-                v.fail('malformed_dispatched:' + reason,
+                devs = rd.deviations(data)
+                v.fail('malformed_dispatched:' + _top_deviation(devs),
                        f'datagram {data[:96].hex()} is not well-formed OSC '
-                       f'1.0 ({reason}) but was dispatched as {got!r}')
+                       f'1.0 ({sorted(devs) or reason}) but was dispatched '
+                       f'as {got!r}')
         elif reason != 'deep' and not budget.exceeded:
             flat = osc_ref.flatten(ref)
             tags_ok = all(set(m.tags) <= SUPPORTED_TAGS for _, m in flat)
@@ -1790,12 +1860,30 @@ def _has_op(case, name):
     return any(op[0] == name for op in case.get('ops', []))
 
 
+def _known_keys():
+    if 'known_keys' not in G:
+        from vlib.core import load_known
+        G['known_keys'] = set(load_known(PROPERTY))
+    return G['known_keys']
+
+
+def _either_matcher_key():
+    """A wrong acceptance that the prefix defect or the slash-crossing
+    defect alone explains (or that needs both): attributed to whichever of
+    the two is still open."""
+    for key in ('prefix_match_accepted', 'wildcard_crosses_slash'):
+        if key in _known_keys():
+            return key
+    return 'prefix_match_accepted'
+
+
 def classify_known(stage, case, viol):
     k = viol.kind
     if stage in ('match', 'match_enum'):
-        if k in ('prefix_match_accepted', 'prefix_or_crossing',
-                 'prefix_and_crossing'):
+        if k == 'prefix_match_accepted':
             return 'prefix_match_accepted'
+        if k in ('prefix_or_crossing', 'prefix_and_crossing'):
+            return _either_matcher_key()
         if k == 'wildcard_crosses_slash':
             return 'wildcard_crosses_slash'
         if k == 'bracket_trailing_minus' and '-]' in case['pattern']:
@@ -1807,10 +1895,12 @@ def classify_known(stage, case, viol):
     if stage == 'history':
         wild = any(rm.has_wildcard(m[0]) for m in _case_msgs(case))
         has_matching = any(s['kind'] == 'matching' for s in _case_new(case))
-        if k in ('unexpected:path:prefix_match_accepted',
-                 'unexpected:path:prefix_or_crossing',
-                 'unexpected:path:prefix_and_crossing') and has_matching:
+        if k == 'unexpected:path:prefix_match_accepted' and has_matching:
             return 'prefix_match_accepted'
+        if k in ('unexpected:path:prefix_or_crossing',
+                 'unexpected:path:prefix_and_crossing') and has_matching \
+                and wild:
+            return _either_matcher_key()
         if k == 'unexpected:path:wildcard_crosses_slash' and wild \
                 and has_matching:
             return 'wildcard_crosses_slash'
@@ -1838,16 +1928,38 @@ def classify_known(stage, case, viol):
             return 'recv_functions_unordered'
         return None
     if stage == 'registries':
+        if case.get('family') != 'server':
+            return None
+        ops = case['ops']
         if k == 'removed_or_unknown_action_ran' \
-                and case.get('family') == 'server' \
-                and any(op[0] == 'remove' for op in case['ops']):
+                and any(op[0] == 'remove' for op in ops):
+            return 'server_action_remove_noop'
+        # an action that was "removed" and added again keeps its old place
+        if k == 'action_order' and any(
+                op[0] == 'remove' and any(
+                    o2[0] == 'add' and o2[1:3] == op[1:3]
+                    for o2 in ops[n + 1:])
+                for n, op in enumerate(ops)):
             return 'server_action_remove_noop'
         return None
     if stage == 'datagram':
         if k == 'parse_step_budget_exceeded:negative_element_size':
             return 'negative_element_size_loops'
         if k.startswith('malformed_dispatched:'):
-            return 'lenient_parser:' + k.split(':', 1)[1]
+            dev = k.split(':', 1)[1]
+            known = _known_keys()
+            data = build_datagram(case)[1]
+            devs = rd.deviations(data)
+            # optional OSC types sc3's reader does not implement are skipped
+            # like unknown tags, which shifts or starves the later arguments
+            skipped = bool(rd.tags_used(data) & set('hcSNI'))
+
+            def grp(d):
+                if skipped and d.startswith('truncated_'):
+                    return 'nonconforming_message_accepted'
+                return DEV2GROUP.get(d)
+            if dev in devs and all(grp(d) in known for d in devs):
+                return grp(dev)
         return None
     return None
 
